@@ -648,6 +648,20 @@ func (s *session) apply(step tf.M) {
 	switch e {
 	case "SetAllowed":
 		names := strList(step, "D")
+		if tf.Bool(step, "twice", false) && len(names) > 0 {
+			// the governance message itself (MsgUpdateParams through the router, ValidateBasic included) with a list that
+			// names its first denom twice: allowed_denoms is a SET in the model - either the list is refused or the
+			// repeated name counts once (the "power" observation of the sync step decides)
+			var ds []string
+			for _, n := range append(append([]string{}, names...), names[0]) {
+				if d, ok := denoms[n]; ok {
+					ds = append(ds, d)
+				}
+			}
+			o := s.r.Deliver(&restaketypes.MsgUpdateParams{Authority: app.RestakeKeeper.GetAuthority(), Params: restaketypes.Params{AllowedDenoms: ds}})
+			s.d.W.Step("SetAllowed", tf.M{"D": names, "twice": true}, outc(o), s.project())
+			break
+		}
 		err := s.setAllowed(names)
 		s.d.W.Step("SetAllowed", tf.M{"D": names}, tf.M{"ok": err == nil}, s.project())
 	case "Stake", "Unstake":
